@@ -88,6 +88,14 @@ func TestVerifBoundedFrontEndTotal(t *testing.T) {
 		}
 	}
 	rec(nil)
+	// deeper sequences over small sub-alphabets (lambda parameter lists, calls/indexing, blocks)
+	for _, sub := range [][]string{{"(", "a", ",", "}", ")", "=>", "1", ".."}, {"a", "(", ")", "[", "]", "{", "}", ":"}, {"func", "if", "else", "{", "}", "(", ")", "a"}} {
+		toks, maxLen = sub, 6
+		if os.Getenv("VERIF_TIER") != "thorough" {
+			maxLen = 5
+		}
+		rec(nil)
+	}
 	// raw bytes
 	alphabet := []byte{'a', '1', '.', 'e', '+', '-', '"', '`', '/', '*', '\\', '\n', ' ', 0, 0xff, '(', ')', '{', '=', '>'}
 	var recb func(prefix []byte)
